@@ -32,7 +32,7 @@ def failures_of(res, clauses):
 
 def sweep(ctx: fw.Ctx, pid: str):
     clauses = CLAUSES[pid]
-    stride = 2 if ctx.quick else 1
+    stride = 1
     n = 0
     for info, text in prog.enumerate_injections(stride=stride, offset=ctx.seed):
         n += 1
@@ -90,3 +90,99 @@ def common(ctx: fw.Ctx, pid: str):
         "the per-construct renderers are covered by observation of the implementation on the enumerated gaps; the "
         "theorems cover the trivia algebra they share (see evidence.fragment)",
     ]
+
+
+# ---------------------------------------------------------------- L2 tie: trivia algebra, function level
+class _StubPoint:
+    def __init__(self, col):
+        self.row, self.column = 0, col
+
+
+class _StubNode:
+    def __init__(self, text, col):
+        self.text = text.encode("utf-8")
+        self.start_point = _StubPoint(col)
+        self.type = "comment"
+
+
+GAP_ALPHABET = [" ", "\t", "\n", "\r"]
+COMMENT_TEXTS = ["# c", "#c", "#", "# ", "#  two", "#!shebang", "/* b */", "/*b*/", "/** d */", "/* a\n   b */",
+                 "/*\n  a\n    b\n*/", "/* a\n  b\n */", "/**\n    Doc\n  */", "/* é ✓ */", "# ünï", "/*  pad  */",
+                 "/* x\n\n   y */", "/**/", "/* a\n b\n   c */"]
+
+
+def trivia_correspondence(ctx: fw.Ctx):
+    """Model/Trivia.lean vs expressions/trivia.py + comment.py, function by function, on: every
+    whitespace gap up to length 6 (quick 5) over {space, tab, LF, CR}; every comment text of a fixed
+    list x start column x indent x inline; every trivia list up to length 3 over {empty_line,
+    linebreak, 6 comments}."""
+    import itertools
+
+    from nix_manipulator.expressions import trivia as T
+    from nix_manipulator.expressions.comment import Comment
+    from nix_manipulator.expressions.layout import empty_line, linebreak
+
+    from .framework import hx
+
+    reqs, expect = [], []
+    maxlen = 5 if ctx.quick else 7
+    gaps = ["".join(t) for L in range(maxlen + 1) for t in itertools.product(GAP_ALPHABET, repeat=L)]
+    gaps += ["\n  x\n", "a", " a \n\n b", "\n# c\n\n"]
+    for g in gaps:
+        lay = T.Layout.from_gap(g)
+        tr = []
+        T.append_gap_trivia(tr, g)
+        b = g.encode()
+        off = T._gap_has_empty_line_offsets(b, 0, len(b)) if b"\n" in b else False
+        reqs.append(["gap", hx(g)])
+        expect.append(["ok", "t" if T.gap_has_empty_line(g) else "f", "t" if off else "f", str(T.indent_from_gap(g)),
+                       ["t" if lay.on_newline else "f", "t" if lay.blank_line else "f",
+                        "-" if lay.indent is None else str(lay.indent)],
+                       ["e" if x is empty_line else "l" for x in tr]])
+        for ind in (0, 2, 6):
+            reqs.append(["sep", hx(g), str(ind)])
+            expect.append(["ok", hx(T.separator_from_layout(lay, indent=ind))])
+        for cs in ("", "# c\n", " /* c */", "x "):
+            for inc in (True, False):
+                reqs.append(["sepc", hx(g), hx(cs), "t" if inc else "f"])
+                expect.append(["ok", hx(T.separator_from_layout_with_comments(lay, cs, include_indent=inc))])
+    comments = []
+    for txt in COMMENT_TEXTS:
+        for col in (0, 2, 5):
+            for inl in (False, True):
+                c = Comment.from_cst(_StubNode(txt, col))
+                c.inline = inl
+                comments.append((txt, col, inl, c))
+                for ind in (0, 2, 4):
+                    kind = "line" if type(c) is Comment else ["block", "t" if c.doc else "f",
+                                                              "-" if c.inner_indent is None else str(c.inner_indent)]
+                    reqs.append(["cmt", str(col), hx(txt), str(ind), "t" if inl else "f"])
+                    expect.append(["ok", hx(c.text), kind, "t" if c.shebang else "f",
+                                   "t" if c.space_after_hash else "f", hx(c.rebuild(indent=ind))])
+    pool = [("e", empty_line), ("l", linebreak)]
+    for (txt, col, inl, c) in comments:
+        if col == 2 and txt in ("# c", "/* b */", "/* a\n   b */"):
+            pool.append((["m", str(col), hx(txt), "t" if inl else "f"], c))
+    maxl = 3 if ctx.quick else 4
+    for L in range(0, maxl + 1):
+        for combo in itertools.product(pool, repeat=L):
+            enc = [x[0] for x in combo]
+            objs = [x[1] for x in combo]
+            for ind in (0, 2):
+                reqs.append(["fmt", str(ind), enc])
+                expect.append(["ok", hx(T.format_trivia(list(objs), indent=ind))])
+                reqs.append(["trail", hx("x = 1;"), str(ind), enc])
+                expect.append(["ok", hx(T.apply_trailing_trivia("x = 1;", list(objs), indent=ind))])
+                for nl in (False, True):
+                    reqs.append(["fmti", str(ind), "t" if nl else "f", enc])
+                    expect.append(["ok", hx(T.format_interstitial_trivia(list(objs), indent=ind, inline_comment_newline=nl))])
+    replies = ctx.driver.ask_many(reqs)
+    bad = 0
+    for rq, ex, got in zip(reqs, expect, replies):
+        ctx.corr_checked += 1
+        if ex != got:
+            bad += 1
+            if bad <= 5:
+                ctx.tie_break("correspondence", f"trivia function {rq[0]} disagrees", request=rq, implementation=ex, model=got)
+    ctx.count("trivia_corr_requests", len(reqs))
+    ctx.count("trivia_corr_disagreements", bad)
